@@ -361,7 +361,17 @@ def parse_coq_nat_list(out, name):
     return [int(x.replace("%nat", "").replace("%Z", "").replace("%N", "").strip().strip("()")) for x in body.split(";")]
 
 
-def eval_failing_multi(module_imports, cases_terms, checkers, name, shard=None, timeout=900, preamble=""):
+def infer_case_type(checkers, preamble):
+    """The Coq type of a case, read off `Definition <checker> (c : TYPE) : bool` in the preamble (so that a shard
+    whose cases happen to contain only None / [] / inl still type-checks)."""
+    for chk in checkers.values():
+        m = re.search(r"Definition\s+%s\s+\(c\s*:\s*(.*?)\)\s*:\s*bool" % re.escape(chk), preamble, flags=re.S)
+        if m:
+            return m.group(1).strip()
+    return None
+
+
+def eval_failing_multi(module_imports, cases_terms, checkers, name, shard=None, timeout=900, preamble="", case_type=None):
     """cases_terms: list of Coq terms (one per case); checkers: {label: Coq function case -> bool}
     (true = model agrees). Returns ({label: sorted failing indices}, error-text-or-None).
     Sharded over all cores; each shard is one coqc run evaluating every checker with vm_compute."""
@@ -385,7 +395,8 @@ def eval_failing_multi(module_imports, cases_terms, checkers, name, shard=None, 
 
     def start(k):
         src = module_imports + "\n" + preamble + "\n"
-        src += "Definition cases := " + coq_list(shards[k]) + ".\n"
+        ct = case_type or infer_case_type(checkers, preamble)
+        src += "Definition cases" + ((" : list (%s)" % ct) if ct else "") + " := " + coq_list(shards[k]) + ".\n"
         src += ("Fixpoint failing_idx {A} (chk : A -> bool) (n : nat) (l : list A) : list nat :=\n"
                 "  match l with [] => [] | c :: t => if chk c then failing_idx chk (S n) t else n :: failing_idx chk (S n) t end.\n")
         for j, lab in enumerate(labels):
@@ -697,7 +708,8 @@ def seq_differential(ctx, spec, exe, proofs_ok, tag=None, scale=1.0):
     corr_fail = {}
     t = time.time()
     if spec.checkers:
-        corr_fail, cerr = eval_failing_multi(spec.imports, terms, spec.checkers, "%s_%s" % (ctx.pid, tag), preamble=spec.preamble)
+        corr_fail, cerr = eval_failing_multi(spec.imports, terms, spec.checkers, "%s_%s" % (ctx.pid, tag), preamble=spec.preamble,
+                                             case_type=getattr(spec, "case_type", None))
     else:
         corr_fail, cerr = {}, None
     if cerr:
